@@ -7,8 +7,9 @@ ToJSON/FromJSON/New) vs `Rws.Json` (Lean model).  Oracle on the implementation a
 `json` module (validity + meaning of every text the library writes, numbers compared as decimal
 tokens / exact integers / exact binary64 values, never through a lossy path) and the
 round-trip rule itself."""
-import json, struct, os, glob, re
+import json, struct, os, glob, re, sys
 from vlib import common as C
+from vlib import gen_c19 as X      # input classes added by the generator audit (audit/C19/AUDIT.md)
 
 DRIVERS = ['Json']   # model driver files this check runs: scopes translator failures to the tables they (and the proofs) import
 TRUSTED = [
@@ -311,12 +312,22 @@ def run(res, tier, seed):
         flats.append([('prop_a', 's', gen_str(rng, 'printable')), ('prop_b', 'b', rng.chance(1, 2)), ('prop_c', 'b', rng.chance(1, 2)),
                       ('prop_d', 'i', gen_int(rng, *INT_TYPES['i128'])), ('prop_e', 'f', gen_f64(rng))])
     flats.append([('prop_a', 's', ''), ('prop_b', 'b', False), ('prop_c', 'b', False), ('prop_d', 'i', 0), ('prop_e', 'f', -0.0)])
+    # audit classes (forked generators: the random stream of the cases above is unchanged): every field alone / every pair of fields /
+    # every field missing, nesting depth 0..4 through every link with full levels, arrays of objects up to length 64, strings that look
+    # like other tokens / punctuation of the format / blanks at the ends / every printable character first and last / long strings,
+    # twin fields, integers and floats at every power of two and ten
+    G = sys.modules[__name__]
+    n_random_docs = len(docs)
+    docs += [('doc', d) for d in X.extra_docs(rng.fork('audit-docs'), G, quick)]
+    flats += X.extra_flats(rng.fork('audit-flats'), G, quick)
     float_lists = [[gen_f64(rng) for _ in range(gen_len(rng))] for _ in range(150 if quick else 3000)]
     float_lists += [[x] for x in SPECIAL_F64] + [[-0.0], [0.0, -0.0, 1.0]]
+    float_lists += X.extra_f64_lists(rng.fork('audit-f64'), G, quick)
     f32_lists = []
     for _ in range(60 if quick else 1500):
         f32_lists.append([struct.unpack('>f', struct.pack('>I', b))[0] for b in
                           [x for x in [rng.below(1 << 32) for _ in range(gen_len(rng))] if (x >> 23) & 0xff != 0xff]])
+    f32_lists += X.f32_special_lists()
     fl = set()
     for _, d in docs: doc_floats(d, fl)
     for d in flats: doc_floats(d, fl)
@@ -349,6 +360,12 @@ def run(res, tier, seed):
         for _ in range(n_lists):
             xs = [gen_int(rng, lo, hi) for _ in range(gen_len(rng))]
             add('jwrite_%s %s' % (ty, ','.join(map(str, xs)) or '~'), ('wint', ty, xs))
+    for ty, xs in X.extra_int_lists(rng.fork('audit-int'), G, quick):
+        add('jwrite_%s %s' % (ty, ','.join(map(str, xs)) or '~'), ('wint', ty, xs))
+    for bs in X.extra_bool_lists(rng.fork('audit-bool'), G, quick):
+        add('jwrite_bool ' + ','.join('t' if b else 'f' for b in bs), ('wbool', bs))
+    for ss in X.extra_string_lists(rng.fork('audit-str'), G, quick):
+        add('jwrite_string ' + (','.join(hx(s) for s in ss) or '~'), ('wstr', ss))
     for n in range(0, 65):
         add('jwrite_null %d' % n, ('wnull', n))
         bs = [rng.chance(1, 2) for _ in range(n)]
@@ -383,6 +400,18 @@ def run(res, tier, seed):
         add('jobjwrite ' + (';'.join(props) or '-'), ('objwrite', None))
         v = [x for x in props[0].split(':', 2)[2].split('|') if not x.startswith('f=')] if props else []
         add('jvdisp ' + ('|'.join(v) or '-'), ('vdisp', None))
+    # well-typed property lists with names and counts the harness structs do not have: written by JSON::to_json_string, judged by
+    # CPython json, read back by JSON::parse_as_properties (phase 2)
+    for ps in X.typed_props(rng.fork('audit-props'), G, quick, fl):
+        spec = []
+        for name, ty, k, v in ps:
+            if k == 's': val = 's=' + hx(v)
+            elif k == 'b': val = 'b=' + ('t' if v else 'f')
+            elif k == 'i': val = 'i=%d' % v
+            elif k == 'f': val = 'f=%016x:%s' % (v, disp[v])
+            else: val = k + '=' + hx(v)
+            spec.append('%s:%s:%s' % (hx(name), hx(ty), val))
+        add('jobjwrite ' + (';'.join(spec) or '-'), ('objwrite', ps))
     impl, model = run_cmp(res, lines, 'Json writers / struct round trip')
 
     # ---- oracle on phase 1 + build phase 2 (readers on the texts the implementation wrote)
@@ -390,6 +419,35 @@ def run(res, tier, seed):
     for ln, m, a in zip(lines, meta, impl):
         if not check_total(res, ln, a, ln.split(' ')[0]): continue
         kind = m[0]
+        if kind == 'objwrite' and m[1] is not None:
+            res.count('property list round trip')
+            ps = m[1]
+            if not a.startswith('ok '):
+                res.fail('writer-error:jobjwrite', ln[:300], a, None, 'unexpected result line'); continue
+            text_hex = a.split(' ')[1]
+            text = C.unhx(text_hex).decode('utf-8')
+            try:
+                got = json.loads(text, parse_float=str, parse_int=int)
+                okv = isinstance(got, dict) and sorted(got.keys()) == sorted(p[0] for p in ps)      # the order of the members is not part of the meaning
+                for name, ty, k, v in ps:
+                    if not okv: break
+                    if k in ('o', 'a'): okv = got[name] == json.loads(v, parse_float=str, parse_int=int)
+                    elif k == 'f': okv = same_value(bits_f64(v), got[name])
+                    else: okv = same_value(v, got[name])
+                if not okv:
+                    res.fail('valid-json-meaning', ln[:300], a[:200], None, 'json.loads(to_json_string(properties)) does not mean the properties')
+            except ValueError as e:
+                res.fail('not-valid-json', ln[:300], a[:200], None, f'to_json_string produced text the independent parser rejects: {e}')
+            exp = []
+            for name, ty, k, v in ps:
+                if k == 's': val = 's=' + hx(v)
+                elif k == 'b': val = 'b=' + ('t' if v else 'f')
+                elif k == 'i': val = 'i=%d' % v
+                elif k == 'f': val = 'f=%016x' % v
+                else: val = k + '=' + hx(v)
+                exp.append('%s:%s:%s' % (hx(name), hx(ty), val))
+            lines2.append('jobjparse ' + text_hex); meta2.append(('objrt', exp))
+            continue
         if kind in ('objwrite', 'vdisp'):
             res.count(kind); continue
         if not a.startswith('ok '):
@@ -437,6 +495,11 @@ def run(res, tier, seed):
     for ln, (kind, want), a in zip(lines2, meta2, impl2):
         if not check_total(res, ln, a, ln.split(' ')[0]): continue
         known = None
+        if kind == 'objrt':
+            got = norm_impl(ln, a).split(' ')        # `ok <n> <p1;p2;...>`; the properties are compared as a set of (name, type, value)
+            if got[:2] != ['ok', str(len(want))] or sorted(got[2].split(';') if len(got) > 2 else []) != sorted(want):
+                res.fail('property-list-roundtrip', ln[:300], a[:200], None, f'parse_as_properties(to_json_string(ps)) != ps; expected {";".join(want)[:200]}')
+            continue
         if kind == 'wint': exp = 'ok 0' if not want else 'ok %d %s' % (len(want), ','.join(map(str, want)))
         elif kind == 'wnull': exp = 'ok %d' % want
         elif kind == 'wbool': exp = 'ok 0' if not want else 'ok %d %s' % (len(want), ','.join('t' if b else 'f' for b in want))
@@ -454,7 +517,7 @@ def run(res, tier, seed):
     objs, arrs = repo_corpus()
     res.count('repository test documents', len(objs) + len(arrs))
     valid_obj = [C.unhx(a.split(' ')[1]).decode() for ln, a in zip(lines, impl) if ln.startswith('jrt ') and a.startswith('ok ')]
-    valid_arr = [C.unhx(ln.split(' ')[1]).decode() for ln in lines2]
+    valid_arr = [C.unhx(ln.split(' ')[1]).decode() for ln in lines2 if not ln.startswith('jobjparse ')]
     hand_obj = ['{"a": -5}', '{"a": 5}', '{}', '{\r\n\r\n}', '{"a": "é"}', '{"a": 1.5e-3, "b": -0.0}', '{"a:b": 1}', '{"a": "x:y"}', '{"a": "x\\"y"}', '{"a": "x\\\\"}',
                 '{"a": {"b": {"c": [1, {"d": null}]}}}', '{"a": [1, 2, [3]], "b": true}', '{"a" : null , "b":false}', ' {"a": 1}', '{"a": 1 }', '{"a": 1 2}', '{"a": 1.2.3}',
                 '{"a": 1e5e5}', '{"a": --1}', '{"a": +1}', '{"a": nul}', '{"a": nulll}', '{"a": truex}', '{"a": "b" x}', '{"a": "b"}, "c": 1}', '{"a": 1}, "c": 2}',
@@ -503,6 +566,13 @@ def run(res, tier, seed):
         for mtx in mutations(rng.fork('x' + t[:30]), t, 6 if quick else 12, every_truncation=len(t) < 40):
             add3('jsplit', mtx, 'valid mutated')
             add3(rng.choice(list_ops), mtx, 'valid mutated')
+    # valid texts in another layout (line ends LF / CR / none / doubled, tabs, no blank after the colon, blanks around the comma, BOM):
+    # not what the writer produces, so outside the round trip - the two sides are compared, and no entry point may panic
+    for t in sorted(valid_obj[:400], key=len)[:20 if quick else 150] + valid_obj[:10 if quick else 150]:
+        for v in X.relayout_object(t): add3('jobjparse', v.encode(), 'valid, other layout')
+    for t in sorted(set(valid_arr), key=lambda x: (len(x), x))[5:25 if quick else 150] + valid_arr[:15 if quick else 300]:
+        for v in X.relayout_array(t):
+            add3('jsplit', v.encode(), 'valid, other layout'); add3(rng.choice(list_ops), v.encode(), 'valid, other layout')
     # key/value pairs cut out of valid documents, for JSONProperty::parse
     for t in valid_obj[:200 if quick else 3000]:
         for piece in t.strip('{}\r\n').split(',\r\n')[:6]:
@@ -543,10 +613,15 @@ def run(res, tier, seed):
         if (want is not None and a != want) or (want is None and not a.endswith('# rt=same')):
             res.fail('regression:' + ln.split(' ')[0], ln, a, None, f'repaired defect is back (expected {want or "rt=same"})')
 
+    res.notes.append('audit classes (vlib/gen_c19.py): %d documents on top of the %d random ones; property lists with free names' % (len(docs) - n_random_docs, n_random_docs))
     res.rule = ('typed lists: every integer width x {empty, extremes, random lengths 0..64} written by the real writer, checked by CPython json, read back by the '
                 'real reader; bool/null lists of every length 0..64; string lists (printable ASCII without quote/backslash; also with brackets and non-ASCII); '
                 'f64/f32 lists by bit pattern; structs Flat and Doc (25 optional fields of every kind, nesting depth 0..4, all 32 presence patterns of the scalar '
-                'fields); readers on the repository test documents, hand-written edge cases, every truncation and random mutations of valid texts, '
+                'fields); audit classes: every field alone / every pair of fields / every field missing, depth 0..4 through every link kind with full levels, '
+                'arrays of objects up to 64 elements, strings that look like other tokens, format punctuation, blanks at the ends, every printable character first and '
+                'last, strings up to 4 097 characters (thorough 65 537), twin fields, integers and floats at every power of two and ten with neighbours, every list '
+                'length 0..64, repeated values in every list type, f32 limits, well-typed property lists with free identifier names and 0..64 members through '
+                'to_json_string / CPython json / parse_as_properties; readers on the repository test documents, valid texts in other layouts, hand-written edge cases, every truncation and random mutations of valid texts, '
                 'pathological inputs (nesting 10 000, 100 kB tokens), random delimiter soup and all strings of length <= %d over an 8-letter delimiter alphabet; '
                 'a case is non-trivial when its input is not empty; distinct = distinct protocol lines' % L)
     res.exhaustive = 'all texts of length <= %d over {[ ] " , 1 - space n} through the splitter; all "{\\"" + texts of length < %d over {{ }} " : 1 , - space}} through the object scanner' % (L, L)
